@@ -570,6 +570,16 @@ func (w *Witness) AddCheckpoint(l *MLog, oldSize, newSize int64) error {
 
 // AddEntries uploads entries [start, end) proving against the tree of size treeSize (c2sp.org/tlog-mirror).
 func (w *Witness) AddEntries(l *MLog, start, end, treeSize int64) error {
+	return w.addEntries(l, start, end, treeSize, -1)
+}
+
+// AddEntriesCut is AddEntries whose request body breaks off in the middle of the package after the first `packages`
+// ones (a dropped connection): the tiles of the complete packages have been written, the mirror checkpoint is not.
+func (w *Witness) AddEntriesCut(l *MLog, start, end, treeSize int64, packages int) error {
+	return w.addEntries(l, start, end, treeSize, packages)
+}
+
+func (w *Witness) addEntries(l *MLog, start, end, treeSize int64, cutAfter int) error {
 	var b []byte
 	b = binary.BigEndian.AppendUint16(b, uint16(len(l.Origin)))
 	b = append(b, l.Origin...)
@@ -580,6 +590,10 @@ func (w *Witness) AddEntries(l *MLog, start, end, treeSize int64) error {
 		roundedStart := start - start%256
 		roundedEnd := (end + 255) / 256 * 256
 		for i := int64(0); i < (roundedEnd-roundedStart)/256; i++ {
+			if cutAfter >= 0 && int(i) == cutAfter {
+				b = append(b, 0, 5, 'x') // the start of one more entry, then nothing
+				break
+			}
 			ts := roundedStart + i*256
 			ps := max(start, ts)
 			pe := min(end, ts+256)
@@ -598,6 +612,9 @@ func (w *Witness) AddEntries(l *MLog, start, end, treeSize int64) error {
 		}
 	}
 	code, resp := w.post("/add-entries", b, "application/octet-stream")
+	if cutAfter >= 0 {
+		return nil // whatever the answer to a broken request is
+	}
 	if code != 200 {
 		return fmt.Errorf("add-entries [%d,%d) of %d: %d %s", start, end, treeSize, code, resp)
 	}
